@@ -73,6 +73,10 @@ def run(ctx):
             tasks.append(dict(fn='check_bench', kw=dict(gate=gate, nin=nin)))
     for gate in ('NOT', 'BUFF'):
         tasks.append(dict(fn='check_bench', kw=dict(gate=gate, nin=1)))
+    # one signal in both operand positions of a two-input gate (XOR(s, s) is constant 0)
+    for gate in ('AND', 'OR', 'NAND', 'NOR', 'XOR'):
+        tasks.append(dict(fn='check_bench', kw=dict(gate=gate, nin=1, operands=[0, 0])))
+        tasks.append(dict(fn='check_bench', kw=dict(gate=gate, nin=2, operands=[1, 1])))
     res = passcheck.pmap(_call, tasks)
     first = {}
     multi = []
@@ -88,6 +92,8 @@ def run(ctx):
                 key = 'cover[nin=%d,terms=%d,out=%s]' % (kw['nin'], len(kw['rows']), kw['rows'][0][1])
             elif t['fn'] == 'check_flop':
                 key = 'flop[%s]' % kw['name']
+            elif t['fn'] == 'check_bench' and kw.get('operands'):
+                key = 'bench[%s with a repeated operand]' % kw['gate']
             elif t['fn'] == 'check_bench' and kw['nin'] > 2:
                 multi.append('%s/%d' % (kw['gate'], kw['nin']))
                 key = 'bench[gates with more than two inputs]'
